@@ -335,6 +335,12 @@ def gep_parts(sc, fn, p):
     bd = fn.def_of(flow.strip_casts(fn, d.ops[0]))
     if bd is None or bd.op != 'load': return None
     bl = a.loc(bd.ops[0])
+    if bl[0] == 'local':
+        # `ch_buf = b->yy_ch_buf; ch_buf[n] = 0;` - a named temporary (assigned exactly once, address never taken) stands for
+        # the value assigned to it (neutral diff m1P4)
+        tv = flow.named_temporary(fn, bd)
+        td = fn.def_of(flow.strip_casts(fn, tv)) if tv is not None and tv[0] == 'reg' else None
+        if td is not None and td.op == 'load' and a.loc(td.ops[0])[0] != 'local': bl = a.loc(td.ops[0])
     t, o = index_term(sc, fn, d.ops[1])
     return (flow._freeze(bl) if bl[0] != 'local' else bl, cell_role(bl), t, o)
 
